@@ -45,8 +45,8 @@ Proof.
          end.
   repeat split; try assumption.
   - match goal with H : (_ || _) = true |- _ \/ _ => apply orb_true_iff in H; destruct H as [H|H]; apply Nat.eqb_eq in H; [left|right]; exact H end.
-  - intros H4.
-    match goal with H : (negb (Nat.eqb (q_nwit q) 4) || q_w2_nonempty q) = true |- _ => rewrite H4 in H; cbn in H; exact H end.
+  - intros Hfour.
+    match goal with H : (negb (Nat.eqb (q_nwit q) 4) || q_w2_nonempty q) = true |- _ => rewrite Hfour in H; cbn in H; exact H end.
 Qed.
 
 Lemma handler_ok_call : forall c, registered_call c = true -> handler_ok c = true -> call_ok_b c = true.
